@@ -111,6 +111,7 @@ def run_shard(spec, R):
         from vf.ambient import run_repo_tests
 
         return run_repo_tests(R, spec["repo_tests"])
+    errs_by_dtype = {}
     for it in spec["items"]:
         if not R.want(["item", it["id"]]):
             continue
@@ -125,7 +126,8 @@ def run_shard(spec, R):
 
             corr = None
             for call in range(3):
-                arr, roi, ref = checker_photo(rng, darsia, (int(rng.integers(100, 140)), int(rng.integers(150, 200))), np.float32, linear_only=(it["cb"] == "linear"), ref=None if corr is None else ref0)
+                dt = [np.float32, np.uint16, np.float64, np.uint8][(it["round"] + call) % 4]
+                arr, roi, ref = checker_photo(rng, darsia, (int(rng.integers(100, 140)), int(rng.integers(150, 200))), dt, linear_only=(it["cb"] == "linear"), ref=None if corr is None else ref0)
                 if corr is None:
                     ref0 = ref
                     corr = darsia.ColorCorrection(base=darsia.CustomColorChecker(reference_colors=ref0), config={"roi": roi, "whitebalancing": it["wb"], "colorbalancing": it["cb"]})
@@ -138,7 +140,8 @@ def run_shard(spec, R):
                 cv2.setRNGSeed(0)
                 got = darsia.CustomColorChecker(image=corr._restrict_to_roi(out)).swatches_rgb
                 err = float(np.max(np.abs(got - ref0)))
-                R.check(err <= 1.5e-2, "correction_recovers_reference_swatches", lambda: {"whitebalancing": it["wb"], "colorbalancing": it["cb"], "call": call, "max_swatch_error": err}, group=f"{it['wb']}/{it['cb']}")
+                errs_by_dtype.setdefault(np.dtype(dt).name, []).append(err)
+                R.check(err <= 1.5e-2, "correction_recovers_reference_swatches", lambda: {"whitebalancing": it["wb"], "colorbalancing": it["cb"], "call": call, "dtype": np.dtype(dt).name, "max_swatch_error": err}, group=f"{it['wb']}/{it['cb']}")
             R.sig(["correction", it["wb"], it["cb"], it["round"]], True, cls="correction")
             continue
         S = gen_swatches(rng)
@@ -178,9 +181,19 @@ def run_shard(spec, R):
         stages = []
         good_run = True
         X = rng.uniform(0, 1, size=(7, 3))  # fresh colours to compare the two ways of applying
+        # every stage but the last is fitted towards its own target (another exact affine image of the sources), so
+        # no stage is trivial; the last stage is fitted towards the final destinations
+        stage_dst = []
+        for si in range(len(seq)):
+            if si == len(seq) - 1 or it["round"] % 2 == 0:
+                stage_dst.append(dst)
+            else:
+                Ak, bk = gen_truth(rng, "affine")
+                stage_dst.append(S @ Ak + bk)
+        case["own_target_per_stage"] = it["round"] % 2 == 1
         for si, mode in enumerate(seq):
             n0 = len(stage_log)
-            ok, _ = R.guarded("find_balance", lambda: bal.find_balance(S, dst, mode))
+            ok, _ = R.guarded("find_balance", lambda: bal.find_balance(S, stage_dst[si], mode))
             if not ok:
                 good_run = False
                 break
